@@ -8,6 +8,11 @@
 (* raises ValueNotAllowedInLevel).  Columns may lack keys, cells may be the wildcard, and  *)
 (* the empty "catch-all" column is included: the theorems of the property are stated for   *)
 (* tables without it, its effect on filter/is_allowed/allowed_values_for is still modelled.*)
+(*                                                                                         *)
+(* Value sets are objects (ValueSets.tla): the set handed out by allowed_values_for is a   *)
+(* new object, not a cell of the table.  Touch models a caller that adds a value to the    *)
+(* set it was handed (encoder/pictures.py does so): the addition shows in that set (ret)   *)
+(* and the table T -- every cell of it -- is left as it was.                               *)
 EXTENDS ConstraintTableOps, TLC
 
 CONSTANTS Keys, CellVals, AskVals, MaxCols, MaxLen
@@ -21,37 +26,50 @@ VARIABLES T,      \* the table
           vals,   \* values chosen (accepted) so far
           fresh,  \* every Check so far named a key not chosen before
           res,    \* "build" | "ok" | "rejected"
-          obs,    \* spec's prediction of what the driver observes for the last Check
+          obs,    \* spec's prediction of what the driver observes for the last Check / Touch
+          ret,    \* the set handed out by the last allowed_values_for query (an object of the caller's)
           pre, inp, hist
 
-vars == <<T, vals, fresh, res, obs, pre, inp, hist>>
+vars == <<T, vals, fresh, res, obs, ret, pre, inp, hist>>
 
 NoObs == [acc |-> TRUE, comb |-> TRUE, any |-> FALSE, allowed |-> {}, filt |-> {}, nocatch |-> TRUE, fresh |-> TRUE]
 
-Init == /\ T = <<>> /\ vals = <<>> /\ fresh = TRUE /\ res = "build" /\ obs = NoObs
+ProjectT(t) == [i \in 1..Len(t) |-> [k \in DOMAIN t[i] |-> [any |-> t[i][k].any, m |-> DenIn(t[i][k], Wide)]]]
+
+Init == /\ T = <<>> /\ vals = <<>> /\ fresh = TRUE /\ res = "build" /\ obs = NoObs /\ ret = EmptyDen
         /\ pre = <<>> /\ inp = [op |-> "init"] /\ hist = <<>>
 
 AddColumn == \E c \in Columns :
   /\ res = "build" /\ Len(T) < MaxCols /\ Len(hist) < MaxLen
   /\ T' = Append(T, c)
-  /\ UNCHANGED <<vals, fresh, res, obs>>
+  /\ UNCHANGED <<vals, fresh, res, obs, ret>>
   /\ pre' = vals /\ inp' = [op |-> "col", c |-> c] /\ hist' = Append(hist, inp')
 
 Check == \E k \in Keys, v \in AskVals :
-  /\ res # "rejected" /\ Len(hist) < MaxLen
+  /\ res \notin {"rejected", "touched"} /\ Len(hist) < MaxLen
   /\ LET allowed == AllowedValuesFor(T, k, vals)
          acc     == DenHas(allowed, v)
          ext     == Extend(vals, k, v)
      IN /\ vals' = IF acc THEN ext ELSE vals
         /\ res'  = IF acc THEN "ok" ELSE "rejected"
         /\ fresh' = (fresh /\ k \notin DOMAIN vals)
+        /\ ret' = allowed
         /\ obs' = [acc |-> acc, comb |-> Allowed(T, ext), any |-> allowed.any,
                    allowed |-> DenIn(allowed, Wide), filt |-> FilterIdx(T, ext),
                    nocatch |-> NoCatchAll(T), fresh |-> fresh']
   /\ UNCHANGED T
   /\ pre' = vals /\ inp' = [op |-> "check", k |-> k, v |-> v] /\ hist' = Append(hist, inp')
 
-Next == AddColumn \/ Check
+\* the caller adds w to the set the last query (key inp.k, chosen values pre) handed out; ends the behaviour
+Touch == \E w \in AskVals :
+  /\ inp.op = "check" /\ Len(hist) < MaxLen
+  /\ ret' = DenAddValue(ret, w)
+  /\ res' = "touched"
+  /\ UNCHANGED <<T, vals, fresh>>
+  /\ obs' = [tab |-> ProjectT(T), ret |-> DenIn(ret', Wide), retany |-> ret'.any]
+  /\ pre' = vals /\ inp' = [op |-> "touch", w |-> w, k |-> inp.k, chosen |-> pre] /\ hist' = Append(hist, inp')
+
+Next == AddColumn \/ Check \/ Touch
 Spec == Init /\ [][Next]_vars
 
 (* --- C17, second sentence ------------------------------------------------------------- *)
@@ -60,11 +78,16 @@ Equivalence == (inp.op = "check" /\ obs.nocatch /\ inp.k \notin DOMAIN pre) => (
 \* one-at-a-time checking accepts exactly the sequences whose every prefix is an allowed combination:
 \* inductively, every accepted state is an allowed combination and a rejection happens exactly when
 \* the extended combination is not allowed
-Incremental == (NoCatchAll(T) /\ fresh) =>
+Incremental == (NoCatchAll(T) /\ fresh /\ inp.op # "touch") =>
                  /\ res = "ok" => Allowed(T, vals)
                  /\ res = "rejected" => ~Allowed(T, Extend(pre, inp.k, inp.v))
 \* with nothing chosen everything is compatible with a non-empty table
 EmptyAssignment == (res = "build" /\ Len(T) > 0) => Allowed(T, <<>>)
+
+\* the set handed to the caller holds what was allowed plus what the caller added, nothing of it went into T
+ResultIsCallers == inp.op = "touch" =>
+  /\ DenHas(ret, inp.w)
+  /\ ret.any \/ ret.s = AllowedValuesFor(T, inp.k, inp.chosen).s \cup {inp.w}
 
 View == <<T, vals, fresh, res, pre, inp>>
 =============================================================================
